@@ -9,7 +9,8 @@
    section of the Go code is ONE atomic step of a thread (Base/Threads.v); the goroutines spawned by
    IsBanned / IsAllowed on an expired entry are entries of a pending list executed by separate runner
    threads in any order at any later point.
-   current_variant = the code after fixes/C18-unban-only-if-expired.diff and fixes/C18-ban-never-weakened.diff;
+   current_variant = the code after fixes/C18-unban-only-if-expired.diff, fixes/C18-ban-never-weakened.diff and
+                     fixes/C18-anon-registration-keeps-failures.diff;
    pinned_variant  = the tree as found (spawned unban deletes whatever record is present; banIP overwrites).
    Definitions only; proofs are in Proofs/Lockout.v. *)
 From Coq Require Export ZArith.
@@ -17,9 +18,11 @@ From TX Require Export Base.Threads.
 Open Scope Z_scope.
 
 Record variant := { cond_unban : bool;      (* spawned unban deletes only a record that is still expired *)
-                    keep_stronger : bool }. (* banIP never replaces a ban by a weaker one *)
-Definition current_variant := {| cond_unban := true; keep_stronger := true |}.
-Definition pinned_variant := {| cond_unban := false; keep_stronger := false |}.
+                    keep_stronger : bool;   (* banIP never replaces a ban by a weaker one *)
+                    anon_resets : bool }.   (* handleFirstConnection calls RecordSuccess (clears the failure record
+                                               although no credential was proven) *)
+Definition current_variant := {| cond_unban := true; keep_stronger := true; anon_resets := false |}.
+Definition pinned_variant := {| cond_unban := false; keep_stronger := false; anon_resets := true |}.
 
 Record cfg := { maxf : Z; window : Z; band : Z; perm : Z;      (* BruteForceConfig *)
                 rate : Z; burst : Z; ttl : Z; tps : Z }.       (* RateLimitConfig (ip level); ticks per second *)
@@ -237,7 +240,8 @@ Section Step.
         if ok then (PHsAuth ip k, s', None) else (PIdle, s', Some 2%N)
     | PHsAuth ip k =>
         if hk_fails k then do_fail_a s ip 3%N 3%N
-        else (PIdle, set_fails s (upd (fails s) ip None), Some 4%N)
+        else (* handleFirstConnection succeeded *)
+          (PIdle, if anon_resets V then set_fails s (upd (fails s) ip None) else s, Some 4%N)
     end.
 
   Definition tstep (l : lo) (s : sh) : lo * sh :=
